@@ -16,6 +16,10 @@ SEED = int(os.environ.get("VERIF_SEED", "0") or 0)
 NCPU = min(16, os.cpu_count() or 1)
 TLA_CP = "/opt/veriftools/tla/tla2tools.jar:/opt/veriftools/tla/CommunityModules-deps.jar"
 
+# every "import coxeter" of the harness resolves to the tree under test (the venv's editable install points at /repo)
+if REPO not in sys.path:
+    sys.path.insert(0, REPO)
+
 _scratch = None
 
 
